@@ -625,8 +625,76 @@ func addStale(w *sim.World, s stale) {
 	w.Scratch["stale"] = append(staleOf(w), s)
 }
 
+// attesterRollbackProbe: an enable (or disable) of an attester in one transaction with a failing
+// message, so that the SDK discards it; then a receive whose attestation depends on that attester.
+func attesterRollbackProbe(g *sim.G, label string) []*sim.Op {
+	w := g.W
+	ks := w.EnabledKeys()
+	t := int(w.Model.Thr)
+	by := sim.Acct(g.Acct(label + "/by"))
+	failer := sim.Acct(g.Acct(label + "/f"))
+	if w.Model.Pending != nil && *w.Model.Pending == failer {
+		failer = sim.Acct((sim.AcctOfBytes(sdk.MustAccAddressFromBech32(failer)) + 1) % sim.NAccts)
+	}
+	fail := sim.TxOp("admin:AcceptOwner", &types.MsgAcceptOwner{From: failer})
+	no := false
+	msg := g.Inbound(label+"/in", sim.InboundOpts{ToModule: &no, Submitter: by}).Msg
+	if g.Bool(label+"/enable") || len(ks) < 2 || len(w.Model.Atts) <= t {
+		// rolled-back enable of X: an attestation that needs X must still be rejected
+		var x *attest.Key
+		for i := 0; i < sim.NKeys+8; i++ {
+			k := attest.K(i)
+			used := false
+			for _, e := range ks {
+				used = used || e.Idx == k.Idx
+			}
+			if !used {
+				x = k
+				break
+			}
+		}
+		en := sim.TxOp("admin:EnableAttester", &types.MsgEnableAttester{From: w.Model.Roles[1], Attester: x.Spelling(g.Int(label+"/sp", 0, 5))})
+		signers := []*attest.Key{x}
+		if t >= 1 && len(ks) >= t-1 {
+			signers = append(signers, ks[:t-1]...)
+		}
+		att := attest.Attest(msg, signers, attest.SigStyle{})
+		recv := sim.TxOp("recv", &types.MsgReceiveMessage{From: by, Message: msg, Attestation: att})
+		return []*sim.Op{sim.Multi(en, fail), recv.WithMeta("plan", "rolled-back-enable").WithMeta("anyvalid", "1")}
+	}
+	// rolled-back disable of Y: an honest attestation that includes Y must still be accepted
+	y := ks[g.Int(label+"/y", 0, len(ks)-1)]
+	var spelling string
+	for _, s := range w.Model.AttesterList() {
+		if sim.KeyOfSpelling(s) == y.Idx {
+			spelling = s
+		}
+	}
+	dis := sim.TxOp("admin:DisableAttester", &types.MsgDisableAttester{From: w.Model.Roles[1], Attester: spelling})
+	signers := []*attest.Key{y}
+	for _, k := range ks {
+		if len(signers) < t && k.Idx != y.Idx {
+			signers = append(signers, k)
+		}
+	}
+	if len(signers) < t {
+		return []*sim.Op{sim.Multi(dis, fail)}
+	}
+	att := attest.Attest(msg, signers, attest.SigStyle{})
+	recv := sim.TxOp("recv", &types.MsgReceiveMessage{From: by, Message: msg, Attestation: att})
+	return []*sim.Op{sim.Multi(dis, fail), recv.WithMeta("plan", "rolled-back-disable").WithMeta("anyvalid", "1")}
+}
+
 func nextC01L2(g *sim.G, i int) *sim.Op {
 	w := g.W
+	if op := queuedOp(g); op != nil {
+		return op
+	}
+	if g.Pct("attrollback", 8) {
+		ops := attesterRollbackProbe(g, "arb")
+		queueOps(g, ops[1:]...)
+		return ops[0]
+	}
 	switch k := g.Int("kind", 0, 9); {
 	case k <= 2:
 		return g.AdminOp("att", 92, []string{"EnableAttester", "DisableAttester", "UpdateSignatureThreshold", "UpdateSignatureThreshold"})
@@ -707,7 +775,7 @@ var C01L2 = register(&HistProp{ID: "C01",
 		return g
 	},
 	Next: nextC01L2, MinOps: 4, MaxOps: 30, New: func() Checker { return &c01l2{} },
-	Require: []string{"nontrivial", "receive-message:accepted", "replace-message:accepted", "receive-message:rejected-attestation", "replace-message:rejected-attestation", "signed-before-rotation", "plan:honest", "plan:tampered"}})
+	Require: []string{"nontrivial", "receive-message:accepted", "replace-message:accepted", "receive-message:rejected-attestation", "replace-message:rejected-attestation", "signed-before-rotation", "plan:honest", "plan:tampered", "plan:rolled-back-enable", "plan:rolled-back-disable"}})
 
 // Native fuzz target (thorough): attestation bytes against a fixed configuration, reference verifier as oracle.
 func fuzzAttestation(f *testing.F) {
